@@ -1,6 +1,8 @@
 package main
 
 import (
+	"crypto/sha256"
+	"encoding/hex"
 	"go/ast"
 	"sort"
 	"strings"
@@ -47,6 +49,18 @@ func factsGet(o *out, mgr pkgFiles) {
 	}
 	o.line("def getVariant : Conc.Variant := { recheckUnderLock := %s, cleanup := %s, checkReread := %s }", leanBool(recheck), cleanup, leanBool(reread))
 	o.line("def kindCheckFirst : Bool := %s", leanBool(kindFirst))
+	// the whole body of Get and of the functions it shares its critical sections with, as a fingerprint: the three
+	// shape facts above only say what the recognisers looked for; any other change to these bodies (a new unlocked gap,
+	// a second lock region, ...) must break the bridge lemma too
+	fp := sha256.New()
+	for _, fn := range [][2]string{{"xdsResourceManager", "Get"}, {"xdsResourceManager", "getFromCache"}, {"notifier", "notify"}} {
+		if fd := mgr.findFunc(fn[0], fn[1]); fd != nil {
+			fp.Write([]byte(fn[1] + ":" + norm(src(fd.Body)) + "\n"))
+		} else {
+			fp.Write([]byte(fn[1] + ":<missing>\n"))
+		}
+	}
+	o.line("def getFingerprint : String := %s", leanStr(hex.EncodeToString(fp.Sum(nil))[:16]))
 
 	// ---- lock nesting ----
 	lockOf := func(x string) string {
